@@ -61,6 +61,21 @@ WITNESSES = {
     # a void function whose code ends with the RET of a conditional return: the last BYTE is RET, but the end is reachable
     'lang:fall-off-function-end': prog([fn(1, [(2, 'bool')], 'void', ('if', V(2), ('ret', None), ('skip',))),
                                         fn(0, [], 'int', seq(P(N(1)), ('expr', ('call', 1, [('bool', False)])), P(N(2)), ('ret', N(7))))]),
+    # output printed before an out-of-range (at a i) must reach stdout: the run stops AT the access, not before what preceded it
+    'lang:native-oob-output-lost': prog([fn(0, [], 'int', seq(('let', False, 1, 'arr', ('arr', [N(1), N(2), N(3)])), P(('at', V(1), N(0))),
+                                                              P(('at', V(1), N(3))), P(N(99)), ('ret', N(0))))]),
+    # (at e i) where e is a call: at : (array<int>, int) -> int, so the element is an int whatever expression yields the array
+    'lang:at-of-call-untyped': prog([fn(1, [(2, 'int')], 'arr', seq(P(V(2)), ('ret', ('arr', [V(2), ('bin', 'add', V(2), N(1))])))),
+                                     fn(0, [], 'int', seq(P(('at', ('call', 1, [N(10)]), N(1))), ('ret', N(0))))]),
+    # the bounds of (range lo hi) are evaluated once, before the first iteration (spec 5.4); the body assigns the variable the
+    # upper bound reads, and the bound's evaluation prints
+    'lang:for-bound-reevaluated': prog([fn(1, [(2, 'int')], 'int', seq(P(('bin', 'add', N(100), V(2))), ('ret', V(2)))),
+                                        fn(0, [], 'int', seq(('let', True, 3, 'int', N(2)),
+                                                             ('for', 4, N(0), ('call', 1, [V(3)]), seq(P(V(4)), ('set', 3, N(4)))),
+                                                             ('ret', N(0))))]),
+    # an array literal with more than 65535 elements: every element counts (the bytecode's ARR_LITERAL has a 16-bit count operand)
+    'lang:array-literal-count-u16': prog([fn(0, [], 'int', seq(('let', False, 1, 'arr', ('arr', [N(i % 7) for i in range(65537)])),
+                                                               P(('len', V(1))), P(('at', V(1), N(65536))), ('ret', N(0))))]),
     # run-time overflow (through variables): wraps
     'lang:runtime-overflow': prog([fn(0, [], 'int', seq(('let', False, 1, 'int', N(9223372036854775807)), P(('bin', 'add', V(1), N(1))),
                                                         P(('bin', 'mul', V(1), V(1))), P(('un', 'neg', ('bin', 'sub', ('un', 'neg', V(1)), N(1)))), ('ret', N(0))))]),
